@@ -2,19 +2,32 @@ from vp.api import Q, Mutant
 from vp.seqir import seqir
 TITLE = "Futures complete once and deliver one value"
 U = "parsec/class/parsec_future.c"
-OUTSIDE = ["the nested-future path of datacopy get_or_trigger under concurrency (variadic callee: checked sequentially only, queries dcseq_*)",
+OUTSIDE = ["datacopy nested futures beyond two concurrent requests of one new shape; the lazy creation of the nested list / class initialisation inside get_or_trigger (done in setup)",
            "weak-memory reorderings (SC only)", "more than 3 threads", "future_init through the variadic entry point (fields set as the init functions do)"]
 ASSUMPTIONS = ["the completion callback (indirect call) runs atomically", "ll2c.py translation validated natively on a sequential script on every run"]
 BOUNDS = {"quick": {"rounds": 3, "scenarios": "set||set||get, set||poll, countable 2-of-2, 2-of-3"}, "thorough": {"rounds": 4}}
-NAMES = {1: ("base_set_set_get", 3), 2: ("base_set_poll", 2), 3: ("countable_2of2_poll", 3), 4: ("countable_2of3_poll", 3), 5: ("datacopy_trigger_x2_set", 3)}
+NAMES = {1: ("base_set_set_get", 3), 2: ("base_set_poll", 2), 3: ("countable_2of2_poll", 3), 4: ("countable_2of3_poll", 3), 5: ("datacopy_trigger_x2_set", 3), 7: ("datacopy_nested_same_shape_x2", 2)}
+# the variadic prologue of parsec_datacopy_future_get_or_trigger becomes a fixed parameter list (Engine S does not
+# translate va_arg); everything after va_end is the real code.  Re-applied to the current file on every run.
+DC_FIXED_ARITY = [("parsec/class/parsec_datacopy_future.c",
+                   r"static void\* parsec_datacopy_future_get_or_trigger\(parsec_base_future_t\* future, \.\.\.\)(;?)",
+                   r"static void* parsec_datacopy_future_get_or_trigger(parsec_base_future_t* future, parsec_future_cb_nested cb_setup_nested, void* cb_data_in, void* es, void* task)\1"),
+                  ("parsec/class/parsec_datacopy_future.c",
+                   r"    va_list ap;\n    va_start\(ap, future\);\n    parsec_future_cb_nested cb_setup_nested = va_arg\(ap, parsec_future_cb_nested\);\n    void\* cb_data_in = va_arg\(ap, void\*\);\n    void\* es = va_arg\(ap, void\*\);\n    void\* task = va_arg\(ap, void\*\);\n    va_end\(ap\);\n", ""),
+                  # the two harness-provided callbacks that receive arguments are called with exactly two of them
+                  ("parsec/class/parsec_future.h", r"typedef void  \(\*parsec_future_cb_nested\)        \(parsec_base_future_t\*\*, \.\.\.\);", "typedef void  (*parsec_future_cb_nested)        (parsec_base_future_t**, void*, void*);"),
+                  ("parsec/class/parsec_future.h", r"typedef int   \(\*parsec_future_cb_match\)         \(parsec_base_future_t\*, \.\.\.\);", "typedef int   (*parsec_future_cb_match)         (parsec_base_future_t*, void*, void*);"),
+                  ("parsec/class/parsec_datacopy_future.c", r"\.get_or_trigger = parsec_datacopy_future_get_or_trigger,", ".get_or_trigger = (parsec_future_get_or_trigger_t)parsec_datacopy_future_get_or_trigger,")]
+NODESTRUCT = ["parsec_obj_destruct", "parsec_obj_destruct_and_free", "parsec_obj_run_destructors", "parsec_datacopy_future_destruct", "parsec_datacopy_future_cleanup_nested"]
 def queries(ctx):
     qs = []
     for sc, (name, nth) in NAMES.items():
-        for R in ((3, 4) if ctx.thorough else (3,)):
+        for R in (((3, 4) if ctx.thorough else (3,)) if sc != 7 else (2,)):
             th = ["thread0", "thread1", "thread2"][:nth]
             qs.append(Q("%s_r%d" % (name, R), [], defs=["SCEN=%d" % sc], engine="S", units=[U, "parsec/class/parsec_future.h"] + (["parsec/class/parsec_datacopy_future.c"] if sc == 5 else []),
-                        gen=seqir(["h.c"], threads=th, rounds=R, drain=True), unwind=6, timeout=2400, slow=True,
-                        tiers=("quick", "thorough") if R == 3 else ("thorough",),
+                        gen=seqir(["h.c"] + (["repo:parsec/class/parsec_list.c"] if sc == 7 else []), threads=th, rounds=R, drain=True), unwind=6, timeout=2400, slow=True,
+                        patches=(DC_FIXED_ARITY if sc == 7 else []), remove_bodies=(NODESTRUCT if sc == 7 else []),
+                        tiers=("quick", "thorough") if R <= 3 else ("thorough",),
                         info={"symbolic": ["schedule: every SC interleaving with <= %d slots per thread, then deterministic drain" % R],
                               "bounds": {"threads": nth, "rounds": R},
                               "functions": ["parsec_base_future_set", "parsec_base_future_get", "parsec_base_future_is_ready", "parsec_countable_future_set",
